@@ -862,11 +862,64 @@ func GenCase(prop string, seed uint64, thorough bool) *Case {
 			c.Rot = true
 		} else if prop == "C08" && r.p(0.15) {
 			g.deepTombstones(c)
+		} else if prop == "C08" && r.p(0.1) {
+			g.discardUnderRemoveFaults(c)
 		} else {
 			g.faultPlan(c, prop)
 		}
 	}
 	return c
+}
+
+// discardUnderRemoveFaults: transactions whose tables were read through the
+// transaction (so their blocks sit in the block cache) are discarded while
+// removing table files fails; the next transaction writes the same keys with
+// other values and commits. File numbers, cached blocks and files that could
+// not be removed must not get mixed up.
+func (g *gen) discardUnderRemoveFaults(c *Case) {
+	r := g.r
+	c.Knobs.WriteBuffer = r.pick(512, 1024, 2048)
+	g.wb = c.Knobs.WriteBuffer
+	c.Knobs.DisableBlockCache = false
+	if c.Knobs.BlockCache < 0 {
+		c.Knobs.BlockCache = 0
+	}
+	c.Knobs.EvictRemoved = r.p(0.3)
+	var ops []Op
+	for i := r.rng(0, 6); i > 0; i-- {
+		ops = append(ops, g.writeOp(0.2))
+	}
+	for round := r.rng(2, 5); round > 0; round-- {
+		nk := r.rng(2, len(g.keys))
+		body := func() []Op {
+			var b []Op
+			for _, k := range g.keys[:nk] {
+				g.nextID++
+				b = append(b, Op{K: "put", Key: B(k), Val: V{ID: g.nextID, Len: r.rng(150, 500)}})
+			}
+			for _, k := range g.keys[:nk] {
+				b = append(b, Op{K: []string{"get", "has"}[r.intn(2)], Key: B(k), Via: "tx"})
+			}
+			return b
+		}
+		ops = append(ops, Op{K: "tx", Commit: false, Body: body()})
+		ops = append(ops, Op{K: "tx", Commit: true, Body: body()})
+		for _, k := range g.keys[:nk] {
+			ops = append(ops, Op{K: "get", Key: B(k)})
+		}
+		if r.p(0.3) {
+			ops = append(ops, Op{K: "compact"})
+		}
+	}
+	ops = append(ops, Op{K: "reopen"})
+	for _, k := range g.keys {
+		ops = append(ops, Op{K: "get", Key: B(k)})
+	}
+	c.Clients = [][]Op{ops}
+	c.Faults = nil
+	for i := r.rng(1, 2); i > 0; i-- {
+		c.Faults = append(c.Faults, &simdisk.Fault{Kind: "err", Op: simdisk.OpRemove, FT: int(storage.TypeTable), Nth: r.rng(1, 4), Count: r.rng(1, 4), Epoch: -1})
+	}
 }
 
 // deepTombstones: a deep tree (tiny tables and level budgets) whose keys are
